@@ -31,6 +31,7 @@ if CONFIG not in ROOTS:
 SAME_VOCAB = {c: get_path_config(c).path_mapping == get_path_config(OTHER[c]).path_mapping for c in _names}
 
 HAS_PATH = {c: set(get_path_config(c).path_templates.keys()) for c in ROOTS}
+DEFAULT = conf.default_path_config or _names[0]       # "either name, or configured default, or first path_configs entry"
 
 
 def _cat(pre: str, t: str, suf: str) -> str:
@@ -60,6 +61,8 @@ def _rt(sid) -> bool:
     ps = str(p)
     if str(sid.path(c)) != ps:
         return fail("path-not-pure")
+    if c == DEFAULT and str(sid.path()) != ps:
+        return fail("path()-is-not-the-default-configuration's-path")
     back = Sid(path=ps, config=c)
     if back != sid or back.type != sid.type or back.fields != sid.fields:
         return fail("path-roundtrip")
